@@ -226,7 +226,7 @@ func (w *world) verifyAllPages(quick bool) {
 }
 
 func run(c *rig.Ctx) {
-	c.Require("configs", "single_writes", "mbc1_triples", "sequence_writes", "pages_reread", "remap_0_to_1_cases", "modulo_cases", "bystander_checks", "ram_accesses_before_rom_reads")
+	c.Require("configs", "single_writes", "mbc1_triples", "sequence_writes", "pages_reread", "remap_0_to_1_cases", "modulo_cases", "bystander_checks", "ram_accesses_before_rom_reads", "stores_outside_the_cartridge")
 	var cfgs []cfg
 	for _, cart := range []uint8{0x00, 0x01, 0x02, 0x03, 0x05, 0x06, 0x0f, 0x10, 0x11, 0x12, 0x13, 0x19, 0x1a, 0x1b, 0x1c, 0x1d, 0x1e} {
 		k, _ := ref.KindOf(cart)
@@ -240,7 +240,7 @@ func run(c *rig.Ctx) {
 	// largest images last within a shard keeps peak memory low
 	c.Part("configs", int64(len(cfgs)), func(i int64, r *rig.Rng) {
 		cf := cfgs[i]
-		ramCode := r.Pick8([]uint8{0, 2, 3})
+		ramCode := r.Pick8([]uint8{0, 2, 3, 4, 5, 1}) // the RAM size declared must play no part in ROM banking
 		bystanderInit()
 		defer bystanderCheck(c, fmt.Sprintf("after cartridge type %02X with ROM size code %d was loaded and driven in the same process", cf.cart, cf.romCode))
 		w := newWorld(c, cf, ramCode)
@@ -316,6 +316,15 @@ func run(c *rig.Ctx) {
 					a = regs[r.Intn(len(regs))]
 				} else {
 					a = uint16(r.Intn(0x8000))
+				}
+				if r.Chance(1, 16) {
+					// a store somewhere else altogether (I/O incl. unmapped registers such as
+					// FF50, high RAM, work RAM): writes never change what the ROM windows show
+					o := r.Pick16([]uint16{0xff50, 0xff50, 0xff4d, 0xff70, 0xff4f, 0xff00 + uint16(r.Intn(0x100)), 0xc000 + uint16(r.Intn(0x2000))})
+					if o != 0xff46 && o != 0xff40 {
+						w.m.Mem.Write(o, r.U8())
+						c.Count("stores_outside_the_cartridge", 1)
+					}
 				}
 				v := r.U8()
 				switch r.Intn(5) {
